@@ -418,6 +418,7 @@ func (e *Engine) runUnit(f *fx, c *Contract) {
 		f.topEnv.vars[fv.Name()] = TV{V: termVal(t), GoT: fv.Type()}
 	}
 	// axioms
+	sc.axiomPos = -1
 	for _, ax := range e.specs.Axioms {
 		// axioms go into a separate list; only those mentioning symbols used by the unit are emitted
 		n := len(sc.lines)
@@ -426,6 +427,7 @@ func (e *Engine) runUnit(f *fx, c *Contract) {
 		sc.lines = sc.lines[:n]
 		sc.axioms = append(sc.axioms, strings.Join(append(decls, "(assert "+t.S+")"), "\n"))
 	}
+	sc.axiomPos = len(sc.lines)
 	if c != nil {
 		for _, rq := range c.Requires {
 			sc.assert(f.specBool(rq, f.topEnv))
